@@ -1124,11 +1124,17 @@ func (db *DB) init(ctx context.Context) (err error) {
 		return fmt.Errorf("acquire read lock: %w", err)
 	}
 
-	// Read page size.
-	if err := db.db.QueryRowContext(ctx, `PRAGMA page_size;`).Scan(&db.pageSize); err != nil {
+	// Read page size. On a re-initialization (the database was disabled and
+	// enabled again) a snapshot started earlier may still be streaming and
+	// reading db.pageSize, so only write the field when the value changed.
+	var pageSize int
+	if err := db.db.QueryRowContext(ctx, `PRAGMA page_size;`).Scan(&pageSize); err != nil {
 		return fmt.Errorf("read page size: %w", err)
-	} else if db.pageSize <= 0 {
-		return fmt.Errorf("invalid db page size: %d", db.pageSize)
+	} else if pageSize <= 0 {
+		return fmt.Errorf("invalid db page size: %d", pageSize)
+	}
+	if db.pageSize != pageSize {
+		db.pageSize = pageSize
 	}
 
 	// Ensure meta directory structure exists.
